@@ -264,6 +264,84 @@ def fp(obj):
     return hashlib.sha1(json.dumps(obj, sort_keys=True).encode()).hexdigest()[:16]
 
 
+def split_traces(evs):
+    traces, cur = [], None
+    for e in evs:
+        if e.get("e") == "reset":
+            cur = [e]
+            traces.append(cur)
+        elif cur is not None:
+            cur.append(e)
+    return traces
+
+
+def check_traces(ctx, traces, label, module="TraceDial", cfg="TraceDial.cfg", specname="Dial.tla", key="scen"):
+    """Validate a batch; on rejection bisect down to the first offending trace and report it."""
+    # crashes / structural problems are decided without TLC
+    good = []
+    for tr in traces:
+        crash = [e for e in tr if e.get("e") == "crash"]
+        if crash:
+            ctx.violation("crash:" + fp(tr[0][key]), "scenario crashed/leaked in the harness bubble: %s" % crash[0]["msg"][:300],
+                          {"scenario": tr[0][key], "trace": tr})
+            continue
+        good.append(tr)
+
+    def flat(trs):
+        return [e for tr in trs for e in tr]
+
+    def validate(trs, name):
+        f = ctx.path("traces-%s.ndjson" % name)
+        write_ndjson(f, flat(trs))
+        return ctx.validate_traces(module, cfg, f, name="trace-" + name)
+
+    if not good:
+        return
+    ok, info = validate(good, label)
+    if ok:
+        ctx.traces += len(good)
+        return
+    # locate the rejected trace: high-water index -> trace number
+    bad_idx = None
+    if info["rejected_at"]:
+        pos, k = 0, 0
+        for k, tr in enumerate(good):
+            if pos + len(tr) >= info["rejected_at"]:
+                bad_idx = k
+                break
+            pos += len(tr)
+    if bad_idx is None:
+        # invariant violation: TLC stops at the first; find by bisection
+        lo, hi = 0, len(good)
+        while hi - lo > 1:
+            mid = (lo + hi) // 2
+            ok2, _ = validate(good[lo:mid], label + "-bis")
+            if ok2:
+                lo = mid
+            else:
+                hi = mid
+        bad_idx = lo
+    ctx.traces += bad_idx
+    tr = good[bad_idx]
+    ok1, info1 = validate([tr], label + "-single")
+    if ok1:
+        raise Inconclusive("trace batch rejected but the single trace is accepted (harness/TLC problem)")
+    what = "real trace not explained by %s" % specname
+    if info1["violated"]:
+        what = "invariant %s violated on a real trace" % info1["violated"]
+    elif info1["rejected_at"]:
+        at = info1["rejected_at"]
+        what += " at event %d: %s" % (at, json.dumps(tr[at - 1]) if at - 1 < len(tr) else "end")
+    ctx.violation("trace:" + fp(tr[0][key]), what + " scenario=" + json.dumps(tr[0][key]),
+                  {"scenario": tr[0][key], "trace": tr, "tlc": info1["out_tail"][-1500:]})
+    # keep validating the rest so that one rejection does not hide others
+    rest = good[bad_idx + 1:]
+    if rest and len(ctx.violations) < 5:
+        check_traces(ctx, rest, label + "r", module, cfg, specname, key)
+
+
+
+
 def load_known():
     p = os.path.join(VERIF, "known_findings.json")
     if not os.path.exists(p):
